@@ -171,14 +171,25 @@ func (e *Engine) contractFor(f *ssa.Function) *Contract {
 func (c *Contract) forView(v string) *Contract {
 	n := *c
 	n.Ensures = nil
+	in := func(tag string) bool {
+		if tag == "" {
+			return true
+		}
+		for _, t := range strings.Split(tag, ",") {
+			if strings.TrimSpace(t) == v {
+				return true
+			}
+		}
+		return false
+	}
 	for _, cl := range c.Ensures {
-		if cl.View == "" || cl.View == v {
+		if in(cl.View) {
 			n.Ensures = append(n.Ensures, cl)
 		}
 	}
 	n.Loops = nil
 	for _, lc := range c.Loops {
-		if lc.View == "" || lc.View == v {
+		if in(lc.View) {
 			n.Loops = append(n.Loops, lc)
 		}
 	}
